@@ -77,6 +77,11 @@ def vqe_case(ctx, rng, molname, frozen, mapping, utd, variant):
     from tangelo.linq import Circuit, Gate
     mol = get_mol(molname, frozen)
     opts = {"molecule": mol, "ansatz": BuiltInAnsatze.UCCSD, "qubit_mapping": mapping, "up_then_down": utd}
+    if variant == "hea":
+        # a hardware-efficient ansatz: complex amplitudes, no symmetry conserved (the RDMs must still be Hermitian and
+        # reproduce the energy; the trace is <N> of that state)
+        opts["ansatz"] = BuiltInAnsatze.HEA
+        opts["ansatz_options"] = {"n_layers": 1}
     case = {"kind": "vqe", "mol": molname, "frozen": frozen, "mapping": mapping, "utd": utd, "variant": variant}
     if variant == "ref_vector":
         na = (mol.n_active_electrons + mol.active_spin) // 2
@@ -116,7 +121,9 @@ def vqe_case(ctx, rng, molname, frozen, mapping, utd, variant):
         if abs(np.trace(r1) - n_state) > 1e-7:
             ctx.violation(f"trace of the VQE 1-RDM is {np.trace(r1)!r}, <N> of the same state is {n_state!r}", c)
             return False
-        conserves = not any(theta) or abs(n_state - mol.n_active_electrons) < 1e-9
+        # (all-zero parameters give the reference determinant for the excitation ansaetze, not for HEA: its entangling
+        # layer stays)
+        conserves = (not any(theta) and variant != "hea") or abs(n_state - mol.n_active_electrons) < 1e-9
         ctx.count("vqe:state-conserves-N" if conserves else "vqe:state-does-not-conserve-N")
         if conserves and abs(np.trace(r1) - mol.n_active_electrons) > 1e-7:
             ctx.violation(f"trace of the VQE 1-RDM is {np.trace(r1)!r}, active electrons {mol.n_active_electrons}", c)
@@ -292,6 +299,9 @@ def run(ctx):
     for (m, f, mp, u) in chosen:
         for variant in (["plain"] if rng.random() < 0.6 else ["ref_vector"]):
             ok &= vqe_case(ctx, rng, m, f, mp, u, variant)
+    for mp in ("JW", "BK", "scBK", "JKMN")[:ctx.n(2, 4)]:
+        ok &= vqe_case(ctx, rng, "H2", None, mp, rng.random() < 0.5, "hea")
+    ok &= vqe_case(ctx, rng, "H4", (0, 3), rng.choice(["JW", "BK"]), rng.random() < 0.5, "hea")
     # the listed finding is re-demonstrated on every run
     ok &= classical_case(ctx, rng, "MP2", "H4t", None, False)
     cl = list(CLASSICAL)
